@@ -1,10 +1,11 @@
 #!/bin/bash
-# usage: try_mutant.sh <seeded-dir> <check-id> [tier]   -- applies the patch to /repo, runs the check, reverts.
-D=$1; C=$2; T=${3:-quick}
+# usage: try_mutant.sh <seeded-dir> <check-id> [tier]   -- applies the patch to /repo, runs the check, always reverts.
+D=$(realpath "$1"); C=$2; T=${3:-quick}
 cd /verif
 git -C /repo diff --quiet || { echo "/repo has uncommitted changes"; exit 2; }
-git -C /repo apply "$(realpath $D)/patch.diff" || exit 2
-./vcheck $C --tier $T > /tmp/try_$$.log 2>&1; rc=$?
+trap 'git -C /repo checkout -- . 2>/dev/null' EXIT INT TERM
+git -C /repo apply "$D/patch.diff" || exit 2
+timeout -k 10 1500 ./vcheck $C --tier $T > /tmp/try_$$.log 2>&1; rc=$?
 git -C /repo checkout -- .
 grep -v "^KNOWN-FINDING" /tmp/try_$$.log | tail -12
 echo "== exit $rc"
